@@ -80,6 +80,8 @@ def enc(x):
         raise ValueError("ndim %d" % x.ndim)
     if isinstance(x, (tuple, list)):
         return [enc(e) for e in x]
+    if isinstance(x, dict) and set(x) == {"enum"}:
+        return x
     if isinstance(x, bezier.Curve):
         return {"curve": enc(x.nodes), "degree": x.degree}
     if isinstance(x, bezier.Triangle):
@@ -220,7 +222,12 @@ OPS = {
 
 
 def enc_enum(e):
-    return {"enum": e.name}
+    if hasattr(e, "name"):
+        return {"enum": e.name}
+    for k, v in vars(hz_geo.BoxIntersectionType).items():
+        if not k.startswith("_") and v == e:
+            return {"enum": k}
+    return {"enum": "UNKNOWN_%r" % (e,)}
 
 
 def sorted_complex(z):
